@@ -1,7 +1,7 @@
 (* API entries for the Monero (C16) and Cardano (C18) models. *)
 From Coq Require Import NArith ZArith List String Bool.
 From BU Require Import Base.Exn Base.Val Base.Radix Base.Bytes Gen.ConstsCardmon Extract.ApiCommon.
-From BU Require Model.XmrB58 Model.EdLib Model.AddrXmr Model.Monero Model.CborEnc Model.Bip32Kholaw Model.ByronLegacyDeriv.
+From BU Require Model.XmrB58 Model.EdLib Model.AddrXmr Model.Monero Model.CborEnc Model.Bip32Kholaw Model.ByronLegacyDeriv Model.AddrAdaShelley Model.AddrAdaByron.
 Import ListNotations.
 Open Scope string_scope.
 
@@ -43,6 +43,16 @@ Fixpoint zs_of_vals (l : list val) : option (list Z) :=
   | _ => None
   end.
 
+
+Definition ada_net_of (i : N) : AddrAdaShelley.ada_net := nth (N.to_nat i) ada_nets (0%N, [], []).
+Fixpoint ns_of_vals (l : list val) : option (list N) :=
+  match l with
+  | [] => Some []
+  | VN z :: t => match ns_of_vals t with Some r => Some (z :: r) | None => None end
+  | _ => None
+  end.
+Definition opt_bytes_of_val (v : val) : option (list N) := match v with VL [VB b] => Some b | _ => None end.
+
 Definition api (ask : string -> list val -> val) : list api_entry :=
   let keccak := o_keccak256 ask in
   let M_from_seed := Monero.from_seed keccak pt (e_mul ask) (e_base ask) e_is_zero e_enc in
@@ -78,6 +88,28 @@ Definition api (ask : string -> list val -> val) : list api_entry :=
     | _ => node_from_priv a cc 0%N
     end in
   let der_of (scheme : N) := match scheme with 2%N | 4%N => by_der | _ => kh_der end in
+  let blake224 := o_blake2b ask 28 in
+  let b32_enc (hrp data : list N) : list N := o_bytes ask "bech32_encode" [VB hrp; VB data] in
+  let b32_dec (hrp text : list N) : option (list N) := opt_bytes_of_val (ask "bech32_decode" [VB hrp; VB text]) in
+  let sh_encode := AddrAdaShelley.encode_payment blake224 pt (e_dec ask) b32_enc in
+  let sh_decode := AddrAdaShelley.decode_payment b32_dec in
+  let st_encode := AddrAdaShelley.encode_staking blake224 pt (e_dec ask) b32_enc in
+  let st_decode := AddrAdaShelley.decode_staking b32_dec in
+  let chacha_enc (k n a p : list N) : list N := o_bytes ask "chacha_enc" [VB k; VB n; VB a; VB p] in
+  let chacha_dec (k n a c t : list N) : option (list N) := opt_bytes_of_val (ask "chacha_dec" [VB k; VB n; VB a; VB c; VB t]) in
+  let parse_outer (b : list N) : option (N * list N * N) :=
+    match ask "byron_parse_outer" [VB b] with VL [VN t; VB v; VN c] => Some (t, v, c) | _ => None end in
+  let parse_payload (b : list N) : option (list N * option (list N) * N) :=
+    match ask "byron_parse_payload" [VB b] with
+    | VL [VB rh; VL []; VN ty] => Some (rh, None, ty)
+    | VL [VB rh; VL [VB v]; VN ty] => Some (rh, Some v, ty)
+    | _ => None end in
+  let parse_bytes (b : list N) : option (list N) := opt_bytes_of_val (ask "cbor_parse_bytes" [VB b]) in
+  let crc32 := o_crc32 ask in
+  let sha3 := o_sha3_256 ask in
+  let by_encode_legacy := AddrAdaByron.encode_legacy sha3 blake224 chacha_enc crc32 pt (e_dec ask) in
+  let by_encode_icarus := AddrAdaByron.encode_icarus sha3 blake224 crc32 pt (e_dec ask) in
+  let by_decode := AddrAdaByron.decode_addr crc32 parse_outer parse_payload parse_bytes in
   [
   ("xmrb58_encode", fun a => match a with [VB b] =>
       Ok (VB (AddrXmr.b58x_encode b)) | _ => bad_call end);
@@ -118,6 +150,51 @@ Definition api (ask : string -> list val -> val) : list api_entry :=
         Ok (vnode n2)
       | _, _ => bad_call
       end
+    | _ => bad_call end);
+  ("ada_shelley_encode", fun a => match a with [VN net; VB pub; VB sk] =>
+      rb (sh_encode (ada_net_of net) pub sk) | _ => bad_call end);
+  ("ada_shelley_decode", fun a => match a with [VN net; VB s] => rb (sh_decode (ada_net_of net) s) | _ => bad_call end);
+  ("ada_staking_encode", fun a => match a with [VN net; VB sk] => rb (st_encode (ada_net_of net) sk) | _ => bad_call end);
+  ("ada_staking_decode", fun a => match a with [VN net; VB s] => rb (st_decode (ada_net_of net) s) | _ => bad_call end);
+  (* [scheme 0 Kholaw(Ledger) / 1 Icarus; seed; net; account; change; index; op 0 address, 1 staking address, 2 keys] *)
+  ("ada_shelley_wallet", fun a => match a with [VN scheme; VB seed; VN net; VZ acc; VZ chg; VZ idx; VN op] =>
+      m <- start scheme seed [] ;;
+      acct <- AddrAdaShelley.cip1852_account (derive kh_der) m acc ;;
+      match op with
+      | 0%N => rb (AddrAdaShelley.shelley_address blake224 pt (e_dec ask) b32_enc (derive kh_der) (ada_net_of net) acct chg idx)
+      | 1%N => rb (AddrAdaShelley.shelley_staking_address blake224 pt (e_dec ask) b32_enc (derive kh_der) (ada_net_of net) acct)
+      | _ => s <- AddrAdaShelley.staking_node (derive kh_der) acct ;;
+             k <- AddrAdaShelley.address_node (derive kh_der) acct chg idx ;;
+             Ok (VL [VB (Bip32Kholaw.n_pub k); VB (Bip32Kholaw.n_pub s)])
+      end
+    | _ => bad_call end);
+  ("cbor_indef_encode", fun a => match a with [VL l] =>
+      match ns_of_vals l with Some ns => Ok (VB (AddrAdaByron.indef_encode ns)) | None => bad_call end
+    | _ => bad_call end);
+  ("cbor_indef_decode", fun a => match a with [VB b] => rmap (fun l => VL (map VN l)) (AddrAdaByron.indef_decode b) | _ => bad_call end);
+  ("ada_byron_encode_icarus", fun a => match a with [VB pub; VB cc] => rb (by_encode_icarus pub cc) | _ => bad_call end);
+  ("ada_byron_encode_legacy", fun a => match a with [VB pub; VB cc; VL path; VB key] =>
+      match ns_of_vals path with Some p => rb (by_encode_legacy pub cc p key) | None => bad_call end
+    | _ => bad_call end);
+  ("ada_byron_decode", fun a => match a with [VB s] => rb (by_decode s) | _ => bad_call end);
+  (* [seed; first; second; op]: op 0 GetAddress, 1 HdPathFromAddress(GetAddress), 2 HdPathKey, 3 public key + chain code *)
+  ("ada_byron_wallet", fun a => match a with [VB seed; VZ i1; VZ i2; VN op] =>
+      m <- start 2%N seed [] ;;
+      let addr := AddrAdaByron.get_address sha3 blake224 pbkdf2 chacha_enc crc32 pt (e_dec ask) (derive by_der) m i1 i2 in
+      match op with
+      | 0%N => rb addr
+      | 1%N => s <- addr ;;
+               rmap (fun l => VL (map VN l))
+                 (AddrAdaByron.hd_path_from_address pbkdf2 chacha_dec crc32 parse_outer parse_payload parse_bytes m s)
+      | 2%N => Ok (VB (AddrAdaByron.hd_path_key pbkdf2 m))
+      | _ => k <- AddrAdaByron.wallet_key (derive by_der) m i1 i2 ;; Ok (VL [VB (Bip32Kholaw.n_pub k); VB (Bip32Kholaw.n_cc k)])
+      end
+    | _ => bad_call end);
+  (* HdPathFromAddress of an arbitrary address string under the wallet of [seed] *)
+  ("ada_byron_path_from", fun a => match a with [VB seed; VB s] =>
+      m <- start 2%N seed [] ;;
+      rmap (fun l => VL (map VN l))
+        (AddrAdaByron.hd_path_from_address pbkdf2 chacha_dec crc32 parse_outer parse_payload parse_bytes m s)
     | _ => bad_call end);
   ("xmr_addr_encode", fun a => match a with [VB ps; VB pv; VB net; po] =>
       match opt_of_val po with
